@@ -70,7 +70,7 @@ def generate(seed, tier="quick"):
         return {"world_seed": seed, "process": proc, "ops": ops,
                 "small_cache": r.choice([None, None, 3, 8]) if proc["method"] == "inversion" else None,
                 "useed": r.randrange(10 ** 9), "sweep": min(TIERS[tier]["sweep"], 1 << 14)}
-    model = r.choice(B.CHAIN_MODELS)
+    model = r.choice(B.CHAIN_MODELS + B.SKEWED_MODELS)
     gk = r.choice(["uniform", "fixed", "geometric", "probstep"])
     grid = {"uniform": {"kind": "uniform", "h": r.choice([0.05, 0.1, 0.08])},
             "probstep": {"kind": "probstep", "h": r.choice([0.05, 0.1]), "pstep": r.choice([0.1, 0.2, 0.3])},
@@ -97,7 +97,10 @@ def generate(seed, tier="quick"):
         else:
             # a sampler of ANOTHER model on the same grid specification is used in between (shared process-wide state?)
             ops.append(["foreign", r.choice([m for m in B.CHAIN_MODELS if m != model]), [r.randrange(14) for _ in range(5)]])
-    return {"world_seed": seed, "process": {"kind": "chain", "model": model, "grid": grid, "method": method},
+    # the chain of level l lives on a grid refined l times after its construction
+    refinements = r.choice([0, 0, 1, 2]) if not (gk == "uniform" and grid["h"] == 0.05) else r.choice([0, 0, 1])
+    return {"world_seed": seed, "process": {"kind": "chain", "model": model, "grid": grid, "method": method,
+                                            "refinements": refinements},
             "ops": ops, "small_cache": r.choice([None, None, 2, 3, 8]) if method == "inversion" else None,
             "useed": r.randrange(10 ** 9), "sweep": TIERS[tier]["sweep"]}
 
